@@ -19,6 +19,7 @@ func init() {
 	vrt.Register("C04_helpers", Helpers)
 	vrt.Register("C04_helpers_iter", HelpersIter)
 	vrt.Register("C04_user_functions", UserFunctions)
+	vrt.Register("C04_token_programs", TokenPrograms)
 }
 
 type S struct {
@@ -276,4 +277,36 @@ func UserFunctions() {
 	defs := "<% let f0 = fn() { return 1 } %><% let f1 = fn(x) { return x } %><% let f2 = fn(x, y) { return x } %>"
 	calls := []string{"f0()", "f0(a)", "f1()", "f1(a)", "f1(a, a)", "f2(a)", "f2()", "f2(a, a, a)", "f1(a)(a)", "f1.Name", "f1[0]", "f1 + 1", "f1(f1)", "f0() { %>x<% }"}
 	total(defs+"<%= "+calls[vrt.Choice(len(calls))]+" %>", ctx)
+}
+
+// every sequence of k atoms as the content of an output tag, evaluated against a
+// context holding one variable of each interesting kind: program shapes are
+// enumerated exhaustively up to length k instead of being hand-picked
+var atoms = []string{
+	"n", "s", "xs", "m", "st", "p", "f", "g", "nope", "nil", "1", "\"k\"", "true",
+	"+", "-", "*", "/", "==", "<", "&&", "!", "~=",
+	"(", ")", "[", "]", "{", "}", ",", ":", ".N", ".Hello()", "=",
+	"for (v) in", "if", "let", "fn(x)", "return",
+}
+
+func TokenPrograms() {
+	k := 3 + vrt.Tier()
+	ctx := plush.NewContext()
+	ctx.Set("n", vrt.Int())
+	ctx.Set("s", vrt.Bytes(1))
+	ctx.Set("xs", []int{1, 2})
+	ctx.Set("m", map[string]interface{}{"k": 1})
+	ctx.Set("st", S{Name: "s"})
+	ctx.Set("p", (*S)(nil))
+	ctx.Set("f", func(n int) int { return n })
+	ctx.Set("g", func() string { return "g" })
+	src := ""
+	for i := 0; i < k; i++ {
+		src += atoms[vrt.Choice(len(atoms))] + " "
+	}
+	if vrt.Bool() {
+		total("<%= "+src+"%>", ctx)
+	} else {
+		total("<% "+src+"%><%= n %>", ctx)
+	}
 }
